@@ -850,6 +850,7 @@ func (v *FnVC) atExit() {
 	}
 	env := v.baseEnv()
 	env.st = st
+	env.lookup = func(name string) (Term, bool) { return v.localAtExit(name, st) }
 	rn := resultNames(nil, sig)
 	for k := range results {
 		env.vars[rn[k]] = results[k]
@@ -1029,4 +1030,49 @@ func (v *FnVC) frameTargets(x Expr, env *Env, all map[string]bool, refs map[stri
 		}
 	}
 	v.fail("unsupported modifies target %s", x.String())
+}
+
+// localAtExit resolves a source-level local in a postcondition: the variable must be bound in a block that
+// dominates every return (typically a value computed at the top of the function).
+func (v *FnVC) localAtExit(name string, st *State) (Term, bool) {
+	var retBlocks []*ssa.BasicBlock
+	for _, b := range v.Fn.Blocks {
+		if len(b.Instrs) > 0 {
+			if _, ok := b.Instrs[len(b.Instrs)-1].(*ssa.Return); ok {
+				if _, reached := v.reach[b]; reached {
+					retBlocks = append(retBlocks, b)
+				}
+			}
+		}
+	}
+	var best ssa.Value
+	var bestAddr bool
+	var bestBlock *ssa.BasicBlock
+	for _, b := range v.Fn.Blocks {
+		domAll := true
+		for _, r := range retBlocks {
+			if !b.Dominates(r) {
+				domAll = false
+			}
+		}
+		if !domAll {
+			continue
+		}
+		for _, ins := range b.Instrs {
+			d, ok := ins.(*ssa.DebugRef)
+			if !ok || identName(d) != name {
+				continue
+			}
+			if bestBlock == nil || bestBlock.Dominates(b) {
+				best, bestAddr, bestBlock = d.X, d.IsAddr, b
+			}
+		}
+	}
+	if best == nil {
+		return Term{}, false
+	}
+	if bestAddr {
+		return v.load(st, v.locOf(best)), true
+	}
+	return v.val(best), true
 }
